@@ -20,13 +20,18 @@ for s in seeds:
         props = claimed if os.environ.get("ALLPROPS") else [p for p in claimed if p == meta["property"]]
         hit = []
         detail = []
-        for p in props:
+        def one(p):
             r = subprocess.run(f"/verif/bin/gicheck -property {p} -repo {wt} -verif /tmp/seedtest-verif", shell=True, capture_output=True, text=True)
             if "VIOLATION property=" in r.stdout:
-                hit.append(p)
-                detail += [l for l in r.stdout.splitlines() if l.startswith(("VIOLATED", "UNDECIDED"))][:3]
+                return p, [l for l in r.stdout.splitlines() if l.startswith(("VIOLATED", "UNDECIDED"))][:3]
             elif r.returncode != 0:
-                hit.append(p + "(exit %d)" % r.returncode)
+                return p + "(exit %d)" % r.returncode, []
+            return None, []
+        from concurrent.futures import ThreadPoolExecutor
+        with ThreadPoolExecutor(int(os.environ.get("JOBS", "4"))) as ex:
+            for h, d in ex.map(one, props):
+                if h:
+                    hit.append(h); detail += d
         print(s, "[%s]" % meta["property"], "CAUGHT by " + ",".join(hit) if hit else "MISSED")
         for d in detail[:4]: print("     ", d[:220])
         res[s] = hit
